@@ -45,18 +45,24 @@ ASSUMPTIONS = [
 ]
 SHRINK = ['prefix']
 PATH = '/sim/Data.fs'
-KINDS = ['file', 'file', 'file', 'mapping']
+KINDS = ['file', 'file', 'file', 'mapping', 'demo:mapping:file',
+         'demo:file:mapping']
 SHAPES = ['enospc', 'eio', 'short', 'persist']
 
 
 def gen(seed, tier):
     r = random.Random(seed)
     kind = r.choice(KINDS)
-    prefix = G.gen_history(ctx.subseed(seed, 'prefix'), kind,
+    prefix = G.gen_history(ctx.subseed(seed, 'prefix'),
+                           'demo' if kind.startswith('demo') else kind,
                            n=r.randint(1, 5),
                            weights=({'new_oid': 0, 'wrong': 3, 'clock': 0,
                                      'reopen': 3, 'rtxn': 3}
                                     if kind == 'file' else
+                                    {'new_oid': 0, 'wrong': 3, 'clock': 0,
+                                     'undo': 0, 'delete': 0, 'rtxn': 0,
+                                     'reopen': 0}
+                                    if kind.startswith('demo') else
                                     {'new_oid': 0, 'wrong': 3, 'clock': 0}))
     noids = r.choice((2, 3, 5))
     vk = r.random()
@@ -468,6 +474,9 @@ def variants_for(case, raw_ops, finish_ops, nstore, tier):
         out += [('conflict', i) for i in range(n)]
         if kind == 'file':
             out += [('quota', i) for i in range(n)]
+    if kind.startswith('demo') and kind.endswith(':file'):
+        # the changes layer refuses over-long metadata at tpc_begin
+        out += [('longmeta', k) for k in 'ude']
     if kind == 'file':
         out += [('longmeta', k) for k in 'ude']
         for i in range(raw_ops):
